@@ -128,6 +128,12 @@ def run(ctx):
             if meth in WRITES and recv is not None and CELL in repr(_recv_types(f, c)):
                 writers.add(strip_generics(root.path))
     want_users = {strip_generics(sgr.path), "metrics::recorder::with_recorder"}
+    # a further user that only OBSERVES the state word (an `is initialised` accessor) takes no part in the protocol: it
+    # neither writes the state (decided below for every function) nor touches the slot
+    for extra in sorted(users - want_users):
+        fs_ = [f for f in m.fns if f.parent is None and strip_generics(f.path) == extra]
+        if fs_ and all(not any("UnsafeCell" in (c.resolved or "") for g_ in f.region() for c in g_.body.calls()) for f in fs_):
+            users.discard(extra)
     chk.ob("C02.a", "GLOBAL_RECORDER [who-may-use]", users == want_users, f"used only by {sorted(u.split('::')[-1] for u in users)}" if users == want_users else f"the static is used by {sorted(users)}; expected exactly {sorted(want_users)}")
     chk.ob("C02.a", "RecorderOnceCell state [who-may-write]", writers <= {strip_generics(sgr.path)}, "only set_global_recorder writes the cell's state" if writers <= {strip_generics(sgr.path)} else f"the state is also written by {sorted(writers - {strip_generics(sgr.path)})}")
 
